@@ -104,14 +104,24 @@ def wrap_position(pos, lines, k):
     raise ValueError(pos)
 
 
-def gen_func(name, sites, term):
+EARLY = {"return": "if yes {\n\t\treturn 7\n\t}", "panic": "if yes {\n\t\tpanic(\"P0\")\n\t}", "fault": "if yes {\n\t\tnilmap[x] = 1\n\t}",
+         "goexit": "if yes {\n\t\truntime.Goexit()\n\t}"}
+
+
+def gen_func(name, sites, term, at=None):
+    """at = k: the function ends (term) before defer site k is reached; the sites from k on are never executed"""
     decls, body = [], []
     for k, (pos, callee) in enumerate(sites):
+        if at == k:
+            body.append("logs(\"%s.early\")" % name)
+            body.append(EARLY[term])
         d, lines = defer_stmt(name, k, callee)
         decls += d
         body += wrap_position(pos, lines, k)
         body.append("logi(\"%s.after%d\", x)" % (name, k))
-    if term == "return":
+    if at is not None:
+        body.append("return 8")
+    elif term == "return":
         body.append("return 7")
     elif term == "panic":
         body.append("if yes {\n\t\tpanic(\"P0\")\n\t}\n\treturn 7")
@@ -125,8 +135,8 @@ def gen_func(name, sites, term):
     return src
 
 
-def label(sites, term):
-    return "+".join("%s/%s" % s for s in sites) + ">" + term
+def label(sites, term, at=None):
+    return "+".join("%s/%s" % s for s in sites) + ">" + term + ("" if at is None else "@%d" % at)
 
 
 def shapes(tier):
@@ -151,11 +161,26 @@ def shapes(tier):
         for cs in itertools.product(cal3, repeat=3):
             for t in (["return", "panic"] if tier != "thorough" else ["return", "panic", "goexit"]):
                 out.append((list(zip(ps, cs)), t))
+    # the function ends before some defer statement is reached (position `at`): never-executed defer statements must not run
+    early = []
+    epos = ["always", "ifT", "ifF", "loop2"] if tier != "thorough" else ["always", "ifT", "ifF", "loop1", "loop2"]
+    ecal = ["plain", "args", "closure", "recover", "result"] if tier != "thorough" else ["plain", "args", "closure", "mval", "pmval", "recover", "repanic", "result"]
+    for s1 in itertools.product(epos, ecal):
+        for t in ("return", "panic", "fault", "goexit"):
+            early.append(([s1], t, 0))
+    for s1 in itertools.product(epos, ecal):
+        for s2 in itertools.product(epos, ecal):
+            for t in (("panic", "goexit") if tier != "thorough" else ("return", "panic", "fault", "goexit")):
+                early.append(([s1, s2], t, 1))
+    for ps in itertools.product(["always", "ifT", "loop2"], repeat=3):
+        for cs in itertools.product(["plain", "args"], repeat=3):
+            for at in (1, 2):
+                early.append((list(zip(ps, cs)), "panic", at))
     if tier == "thorough":
         for ps in itertools.product(["always", "ifT", "loop2"], repeat=4):
             out.append(([(p, "args") for p in ps], "panic"))
             out.append(([(p, "plain" if i % 2 else "args") for i, p in enumerate(ps)], "return"))
-    return out
+    return out + early   # (appended last: the numbering of the earlier shapes, and with it their #chain variants, stays as it was)
 
 
 CHAIN = r'''
@@ -184,7 +209,8 @@ def programs(tier):
     shp = shapes(tier)
     # defers inside range-over-func bodies go into their own programs (rfNN): llgo emits invalid IR for them (known finding),
     # which would otherwise take the whole program down on the clang back end
-    groups = {"defer": [s for s in shp if not any(p == "rf" for p, _ in s[0])], "rf": [s for s in shp if any(p == "rf" for p, _ in s[0])]}
+    groups = {"defer": [s for s in shp if len(s) == 2 and not any(p == "rf" for p, _ in s[0])], "rf": [s for s in shp if len(s) == 2 and any(p == "rf" for p, _ in s[0])],
+              "early": [s for s in shp if len(s) == 3]}   # (early-termination shapes last: the numbering of the others is what the known sets were recorded with)
     per = 700
     progs = {}
     n = 0
@@ -193,10 +219,12 @@ def programs(tier):
             chunk = lst[pi:pi + per]
             src = [PRELUDE.replace('import (\n\t"os"\n\t"unsafe"\n)', 'import (\n\t"os"\n\t"runtime"\n\t"unsafe"\n)'), COMMON.replace('import "runtime"\n', ''), CHAIN, "var yes = true\nvar zero = 0\n"]
             main = []
-            for i, (sites, term) in enumerate(chunk):
+            for i, shape in enumerate(chunk):
+                sites, term = shape[0], shape[1]
+                at = shape[2] if len(shape) > 2 else None
                 name = "f%d" % n
-                src.append(gen_func(name, sites, term))
-                lab = label(sites, term)
+                src.append(gen_func(name, sites, term, at))
+                lab = label(sites, term, at)
                 main.append("\tcall(\"%s\", %s)" % (lab, name))
                 if n % 5 == 0:
                     main.append("\tcall(\"%s#chain-rec\", func() int { return chainCaller(\"%s\", %s, true) })" % (lab, name, name))
